@@ -433,6 +433,48 @@ func runC07(env *lib.Env, rep *lib.Report) {
 		}
 		rep.Bounds["boolean / bigint grouping family"] = fmt.Sprintf("%d multisets of <= 3 rows over f in {true,false,NULL} x g in {1,2^40}, every row order, 4 GROUP BY queries", len(fbSets))
 	}
+	// long select lists with two AVG items over columns whose names continue each other with digits (v, v1, v11),
+	// at every pair of positions out of {0, 1, 2, 10, 11, 12}: each AVG keeps its own running state
+	if env.Shard == 4%env.NShards {
+		mRows := [][]any{{int64(1), int64(10), int64(100), int64(1000)}, {int64(2), int64(7), int64(9), int64(11)}, {int64(1), int64(20), int64(300), int64(5000)},
+			{int64(2), int64(3), int64(19), int64(1)}}
+		mFrom := []qJoin{{table: "m"}}
+		x := lib.RunOnce(func(c *lib.Ctx) {
+			worlds++
+			qw := newQWorld(c, []*qTable{{name: "m", cols: []mCol{{"g", "int"}, {"v", "int"}, {"v1", "int"}, {"v11", "int"}}, rows: mRows}})
+			defer qw.w.destroy()
+			pos := []int{0, 1, 2, 10, 11, 12}
+			for _, a := range []string{"v", "v1", "v11"} {
+				for _, b := range []string{"v", "v1", "v11"} {
+					for pi, i := range pos {
+						for _, j := range pos[pi+1:] {
+							items := make([]qItem, j+1)
+							for k := range items {
+								items[k] = qItem{kind: "count*"}
+							}
+							items[i] = qItem{kind: "avg", col: qRef{"", a}}
+							items[j] = qItem{kind: "avg", col: qRef{"", b}}
+							// (groups of two rows: the known finding about re-rounding needs three)
+							if j > 2 {
+								items = append([]qItem{}, items...)
+								for k := range items {
+									if k != i && k != j {
+										items[k] = qItem{kind: "col", col: qRef{"", "g"}}
+										break
+									}
+								}
+							}
+							r.check(qw, &qQuery{items: items, from: mFrom, groupBy: []qRef{{"", "g"}}, limit: -1, offset: -1}, "avg/long-select-list", "")
+						}
+					}
+				}
+			}
+		}, nil)
+		if x.Fail != nil {
+			rep.AddFailure(x.Fail)
+		}
+	}
+	rep.Bounds["long select lists"] = "m(g,v,v1,v11), 2 groups of 2 rows: two AVG items over every pair of {v,v1,v11} at every pair of positions out of {0,1,2,10,11,12} (COUNT(*) elsewhere), GROUP BY g"
 	rep.Bounds["varchar grouping family"] = "every multiset of <= 3 rows over s in {NULL, '', 'a', '<nil>', '0:|'} in every row order, 4 GROUP BY queries"
 	rep.Bounds["databases built (this shard)"] = worlds
 	rep.Bounds["queries executed (this shard)"] = r.nQuery
